@@ -290,6 +290,14 @@ def compare_table(ctx, rule, fnkey, body, expected, allowed_extra=()):
             if id(q) in tabled:
                 used_rows.add(id(r))
                 break
+    # a call-site row (`iter.try_for_each(closure)?`, `helper(..)?`) all of whose refining rows are tabled or expected is accounted for
+    kids = {}
+    for idx_r, r in enumerate(rows):
+        if r['parent'] is not None:
+            kids.setdefault(r['parent'], []).append(r)
+    for pi, ks in kids.items():
+        if all(id(k) in tabled or id(k) in used_rows for k in ks):
+            used_rows.add(id(rows[pi]))
     changed = True
     while changed:
         # a spliced row that satisfied an expectation accounts for the call-site row it refines, and vice versa
